@@ -59,6 +59,14 @@ def _renameable(fn) -> Set[str]:
 def rename_locals(tree, suffix="_q"):
     for fn in _functions(tree):
         names = _renameable(fn)
+        # names that strings of the function refer to (`DataFrame.query("b in @sub_deg")`, format fields) keep their spelling
+        import re as _re
+
+        in_strings = set()
+        for n in ast.walk(fn):
+            if isinstance(n, ast.Constant) and isinstance(n.value, str):
+                in_strings |= set(_re.findall(r"[A-Za-z_][A-Za-z_0-9]*", n.value))
+        names = [n for n in names if n not in in_strings]
         # never capture an existing name
         existing = {n.id for n in ast.walk(fn) if isinstance(n, ast.Name)}
         ren = {n: n + suffix for n in names if n + suffix not in existing and n + suffix not in BUILTINS}
